@@ -85,13 +85,15 @@ def build_graph(inst):
             G.add_node(v, flow=val_of(nw[i], num, den, as_float))
         else:
             G.add_node(v)
+        if inst.get("nlen") and inst["nlen"][i] != NONE:
+            G.nodes[v]["length"] = inst["nlen"][i]
     ew = inst.get("ew")
     el = inst.get("elen")
     for i, (u, v) in enumerate(inst["edges"]):
         attrs = {}
         if ew is not None and ew[i] != NONE:
             attrs["flow"] = val_of(ew[i], num, den, as_float)
-        if el is not None and el[i] != NONE:
+        if el and el[i] != NONE:
             attrs["length"] = el[i]
         G.add_edge(u, v, **attrs)
     return G
